@@ -245,12 +245,25 @@ def concrete_playback(scratch, h, timeout_s=900):
     env["CARGO_NET_OFFLINE"] = "true"
     env["CARGO_TARGET_DIR"] = scratch + "/target"
     env.pop("RUSTUP_TOOLCHAIN", None)
+    # own process group + the same memory watchdog as the verification runs: the trace-producing CBMC run can need far
+    # more memory than the refutation itself (26 GB seen); on timeout / memory cap there is simply no concrete input
+    import threading
+    p = subprocess.Popen(cmd, cwd=src, env=env, stdout=subprocess.PIPE, stderr=subprocess.STDOUT, text=True,
+                         start_new_session=True)
+    stop = threading.Event()
+    th = threading.Thread(target=_watch_mem, args=(p.pid, stop), daemon=True)
+    th.start()
     try:
-        p = subprocess.run(cmd, cwd=src, env=env, stdout=subprocess.PIPE, stderr=subprocess.STDOUT, text=True,
-                           timeout=timeout_s)
-        out = p.stdout
-    except subprocess.TimeoutExpired as e:
+        out, _ = p.communicate(timeout=timeout_s)
+    except subprocess.TimeoutExpired:
+        try:
+            os.killpg(p.pid, signal.SIGKILL)
+        except ProcessLookupError:
+            pass
+        p.communicate()
         return None, "timeout in concrete playback"
+    finally:
+        stop.set()
     test = None
     for m in re.finditer(r"```\n(.*?)```", out, re.S):
         if "Check for `cover`" in m.group(1):
